@@ -452,6 +452,10 @@ def rule_part(ctx):
 
 
 def run(ctx):
+    from ..report import SubCtx
+    from . import c17
+    sub17 = SubCtx(ctx, 'C16.pair', 'an id goes back to its allocator exactly when its owner gives it up: the order of command building, release and clearing in the free() methods, as decided for C17')
+    c17.rule_pair(sub17)
     rule_units(ctx)
     rule_free(ctx)
     rule_alloc_complete(ctx)
